@@ -491,6 +491,16 @@ def r17_8(ctx):
                             work.append(a.value)
         ok = bool(roots)
         ctx.check(ok, f.fq, f"filename={norm(fn_) if fn_ is not None else None}", f"{m.relpath}:{c.lineno}", "the file is that of the same frame's code object", "Frame.filename is not taken from the walked frame's code object")
+    # a relative file name means "relative to the directory the program was started in" (where the import happened and the code
+    # object got its name): it is anchored at rich._IMPORT_CWD, never at the working directory at report time
+    cwd_calls = [c for c in ast.walk(lp) if isinstance(c, ast.Call) and norm(c.func) in ("os.path.abspath", "os.path.realpath", "os.getcwd", "Path.cwd", "os.path.relpath", "abspath", "realpath", "getcwd")
+                 or (isinstance(c, ast.Call) and isinstance(c.func, ast.Attribute) and c.func.attr in ("resolve", "absolute"))]
+    for c in cwd_calls:
+        ctx.violation(f.fq, short(c), f"{m.relpath}:{c.lineno}", f"`{short(c)}` resolves the frame's file name against the CURRENT working directory: after an os.chdir() between start-up and the report a relative co_filename points at a file that is not there (or at another one) and the frame shows an error instead of its source line")
+    joins = [c for c in ast.walk(lp) if isinstance(c, ast.Call) and norm(c.func) in ("os.path.join", "join") and c.args and norm(c.args[0]).endswith("_IMPORT_CWD")]
+    if not cwd_calls:
+        ctx.check(bool(joins), f.fq, "os.path.join(_IMPORT_CWD, filename)", f"{m.relpath}:{lp.lineno}", "relative file names are anchored at the start directory",
+                  "a relative co_filename is no longer joined with rich._IMPORT_CWD: it is read relative to whatever the working directory is when the traceback is rendered")
 
 
 def r17_9(ctx):
